@@ -1,11 +1,12 @@
 SPECIFICATION Spec
 CONSTANTS
-  Trees <- const_TreesMk
+  Trees <- const_TreesPartial
   Ops <- const_OpsMkRm
-  MaxIno = 20
+  MaxIno = 24
   KMaxLinks = 40
   EmitCases = TRUE
   RefuseDotNames = FALSE
   RefuseOPathCreate = TRUE
+  KeepDotInStack = FALSE
 INVARIANTS TypeOK CaseOut
 CHECK_DEADLOCK FALSE
